@@ -70,6 +70,8 @@ def derive(o, how, proto=2):
             m = np.ones(o.shape[0], dtype=bool)
             m[-1] = o.shape[0] == 1
             return o[m]
+        if how == 'pick_channels':
+            return o[:, ['c1', 'c2']]          # advanced index along the channel axis: new, column-ordered buffer
         if how == 'copy':
             return o.copy()
         if how == 'copycopy':
